@@ -1,6 +1,8 @@
 // ---- prelude/flags.rs: models of the bitflags! types and libc constants (R12) ----------
 // x86_64-linux values; cross-checked against the real `libc` crate by tools/constcheck.
 pub mod libc {
+    pub type mode_t = u32;
+    pub type c_int = i32;
     pub const ENOENT: i32 = 2;
     pub const EBADF: i32 = 9;
     pub const EAGAIN: i32 = 11;
